@@ -3,6 +3,7 @@
 import json, os, subprocess
 VERIF = os.path.dirname(os.path.dirname(os.path.abspath(__file__)))
 TECH_GEN = "machine-checked proof in Lean 4: lock-discipline theorem over traces + access table regenerated from /repo by a go/ast translator and decided by the kernel + race-detector correspondence check"
+TECH_LIN = "machine-checked proof in Lean 4: verified (sound+complete) linearizability checker + invariant proof over the serialized-server transition system + recorded concurrent histories of /repo decided by the checker; dispatch-lock fact regenerated from source"
 TECH = "machine-checked proof in Lean 4 over a hand-written executable model + differential correspondence check against /repo"
 NOTE = ("Lean 4.33 kernel; axioms propext/Classical.choice/Quot.sound only (audited per theorem); hand-written model tied to /repo by the "
         "correspondence check (Go harness, -tags verif, vs compiled model driver) whose generator coverage bounds what it sees; ")
@@ -61,6 +62,9 @@ CHECKS = {
  "C14": ("DESIGN.md 5.14",
   "Theorems: (unbounded, any number of goroutines, any trace the mutexes admit) block-structured locking - every access to a shared field inside a Lock/RLock bracket of its guard, exclusive for writes - implies that two conflicting accesses by different goroutines are separated by an Unlock of the first and a Lock of the second, i.e. ordered by the Go memory model (no data race); the access table REGENERATED from /repo's source on every run (every site touching Config.params, ConnManager.m, Conn.isClosed with the lock mode held there) satisfies that discipline and covers the three fields (decided by the kernel); the listener fields are touched by the application thread only (regenerated control-flow facts). Tie: concurrent workloads on a real server under the Go race detector vs the model's prediction.",
   "partial: which fields are shared is an assumption checked only dynamically (race detector workloads); the extractor's reading of lock brackets is syntactic; the race detector sees only exercised schedules"),
+ "C16": ("DESIGN.md 5.16",
+  "Theorems (unbounded): linearizability defined outright (a permutation of the history that respects real time and is explained by the sequential specification = the framework model run atomically on the reference store); the executable complete search is sound AND complete, so its verdict on a recorded history is the definition's; every schedule (any number of clients, commands, interleavings of invocation / critical section / response) of a server that executes each command in one atomic step yields a linearizable history (invariant over the transition system); a lost update, a stale read are refuted; SETNX has one winner. Regenerated fact: the connection loop executes requests only under the dispatch mutex. Tie: concurrent histories recorded from the real connection loops (example store and a reference handler with scheduling points) decided by the verified checker, cross-checked by an independent Go search.",
+  "partial: goroutine scheduling is not controlled (histories are sampled, with seeded scheduling points inside the reference handler); mutex semantics trusted; the example store is covered only through recorded histories"),
  "C06": ("DESIGN.md 5.6",
   "Theorems (unbounded): for every byte sequence in every segmentation the next-value read ends in {value without absent elements, clean EOF, error}; never panic, never out of fuel; progress (>=1 byte per value); declared bulk length above the limit is an error before allocation. Tie: real parser on hostile/mutated/near-valid streams; allocation bombs in an isolated child.",
   "Go runtime allocation behaviour for sizes <= 512MiB+2; stack exhaustion far beyond 1 MiB input not modelled"),
@@ -73,7 +77,7 @@ def main():
             "property_id": pid, "quick_cmd": f"bin/check {pid} --tier quick", "thorough_cmd": f"bin/check {pid} --tier thorough",
             "evidence_file": f"/verif/evidence/{pid}.json", "replay_cmd_template": f"bin/check {pid} --replay {{path}}",
             "engine": "lean-model", "level_claimed": {"category": "proof", "text": text, "design_ref": ref},
-            "level_note": NOTE + note, "technique": TECH_GEN if pid == "C14" else TECH})
+            "level_note": NOTE + note, "technique": TECH_GEN if pid == "C14" else (TECH_LIN if pid == "C16" else TECH)})
     m["not_applicable"] = [{"property_id": f"C{i:02d}", "reason": "check not built yet in this round (planned, DESIGN.md section 10); not claimed until its model, theorems and tie exist"}
                            for i in range(1, 21) if f"C{i:02d}" not in CHECKS]
     for e in m["engines"]:
